@@ -487,6 +487,13 @@ def c15(tier, seed):
     res = Result("C15", tier, seed, "model_checking")
     wd = workdir("C15")
     mc = run_mc("MC_ConeStep.tla", "MC_ConeStep.cfg", workers=8, timeout=900, coverage=False, name="MC_ConeStep")
+    # the initial shift into the cones under a rounding adversary: the repaired algorithm ends strictly inside; the algorithm
+    # without the re-read of the margins must NOT (F20 at design level - if TLC stops finding it the model has gone vacuous)
+    si = run_mc("MC_ShiftInterior.tla", "MC_ShiftInterior_q.cfg" if tier == "quick" else "MC_ShiftInterior.cfg", workers=4, timeout=900, coverage=False, name="MC_ShiftInterior")
+    sn = run_mc("MC_ShiftInterior.tla", "MC_ShiftInterior_q_neg.cfg" if tier == "quick" else "MC_ShiftInterior_neg.cfg", workers=4, timeout=900, coverage=False, name="MC_ShiftInterior_neg", expect_ok=False)
+    if sn["ok"] or "Interior" not in sn["violated"]:
+        raise ToolError("vacuity guard: ShiftInterior without the re-read no longer violates Interior")
+    mc["states"] += si["states"]; mc["transitions"] += si["transitions"]
     tr, mt = os.path.join(wd, "conestep.ndjson"), os.path.join(wd, "conestep.meta.json")
     run_vh(["conestep", "--seed", seed, "--tier", tier, "--out", tr, "--meta", mt], timeout=4 * 3600)
     meta = json.load(open(mt))
